@@ -64,7 +64,7 @@ pub fn chain_sprite(depth: usize, hidden_at: Option<usize>) -> File {
 
 pub fn run(ctx: &Ctx) -> i32 {
     let thorough = ctx.tier == Tier::Thorough;
-    let maxn = if thorough { 10 } else { 8 };
+    let maxn = if thorough { 11 } else { 8 };
     let want = Want { tilemaps: false, tileset_images: false, ..Want::all() };
     for n in 1..=maxn {
         let fam = format!("forest-n{}", n);
